@@ -187,6 +187,25 @@ pub fn check_chrom_table(out: &mut Outcome, got: &[(String, u32)], expected: &[(
     }
 }
 
+
+/// A file with more chromosomes than the default chromosome-tree block size (256).
+pub fn many_chroms_bw(n: usize) -> BwInput {
+    (0..n)
+        .map(|i| {
+            let vals: Vec<Value> = (0..(1 + i % 3) as u32).map(|k| Value { start: k * 7 + (i as u32 % 5), end: k * 7 + (i as u32 % 5) + 3, value: (i % 17) as f32 + 0.5 }).collect();
+            (Chrom { name: format!("s{:03}", i), size: 1000 + i as u32 }, vals)
+        })
+        .collect()
+}
+pub fn many_chroms_bb(n: usize) -> BbInput {
+    (0..n)
+        .map(|i| {
+            let ents: Vec<BedEntry> = (0..(1 + i % 3) as u32).map(|k| BedEntry { start: k * 5 + (i as u32 % 4), end: k * 5 + (i as u32 % 4) + 9, rest: format!("n{}\t{}", i, k) }).collect();
+            (Chrom { name: format!("s{:03}", i), size: 1000 + i as u32 }, ents)
+        })
+        .collect()
+}
+
 pub fn c01(ctx: &Ctx, begin: &mut dyn FnMut(J)) -> Outcome {
     let mut r = Rng::derive(ctx.seed, 0xC01, ctx.case);
     let mut case = gen_bw_case(
@@ -209,6 +228,19 @@ pub fn c01(ctx: &Ctx, begin: &mut dyn FnMut(J)) -> Outcome {
         case.opts.hash_into(&mut f);
         case.hash = f.hex();
         begin(J::obj().set("opts", case.opts.to_json()).set("input", J::s("70000 values [2i,2i+1) = i%97 on chr1")));
+    } else if ctx.case == 1 {
+        // more chromosomes than the chromosome-tree default block size
+        case.input = many_chroms_bw(300);
+        case.opts.source = Source::Serial;
+        case.opts.sort_all = true;
+        case.extra.clear();
+        case.tags = vec!["chroms_gt_256".into()];
+        case.nontrivial = true;
+        let mut f = Fnv::new();
+        bw_hash(&case.input, &mut f);
+        case.opts.hash_into(&mut f);
+        case.hash = f.hex();
+        begin(J::obj().set("opts", case.opts.to_json()).set("input", J::s("300 chromosomes s000..s299 with 1..3 values each")));
     } else {
         begin(bw_desc(&case));
     }
@@ -385,8 +417,18 @@ fn bb_desc(c: &BbCase) -> J {
 
 pub fn c02(ctx: &Ctx, begin: &mut dyn FnMut(J)) -> Outcome {
     let mut r = Rng::derive(ctx.seed, 0xC02, ctx.case);
-    let case = gen_bb_case(&mut r, &BbGenCfg { allow_zero_len: true, no_zero_zero: false, small_slots: false, max_chroms: 6, ncols: None });
-    begin(bb_desc(&case));
+    let mut case = gen_bb_case(&mut r, &BbGenCfg { allow_zero_len: true, no_zero_zero: false, small_slots: false, max_chroms: 6, ncols: None });
+    if ctx.case == 1 {
+        case.input = many_chroms_bb(300);
+        case.opts.source = Source::Serial;
+        case.opts.sort_all = true;
+        case.extra.clear();
+        case.tags = vec!["chroms_gt_256".into()];
+        case.nontrivial = true;
+        begin(J::obj().set("opts", case.opts.to_json()).set("input", J::s("300 chromosomes s000..s299 with 1..3 entries each")));
+    } else {
+        begin(bb_desc(&case));
+    }
     let mut out = Outcome::new();
     out.hash = case.hash.clone();
     out.nontrivial = case.nontrivial;
@@ -652,8 +694,15 @@ pub fn c09emit(ctx: &Ctx, begin: &mut dyn FnMut(J)) -> Outcome {
     let base = ctx.scratch.join(format!("c09_{}_{}", ctx.seed, ctx.case));
     if ctx.case % 2 == 0 {
         let small = r.chance(1, 2);
-        let case = gen_bw_case(&mut r, &BwGenCfg { allow_zero_len: true, huge_ok: true, small_slots: small, allow_unsorted_chroms: true, max_chroms: 6, force_exact: false });
-        begin(bw_desc(&case));
+        let mut case = gen_bw_case(&mut r, &BwGenCfg { allow_zero_len: true, huge_ok: true, small_slots: small, allow_unsorted_chroms: true, max_chroms: 6, force_exact: false });
+        if ctx.case == 2 {
+            case.input = many_chroms_bw(300);
+            case.opts.source = Source::Serial;
+            case.opts.sort_all = true;
+            case.extra.clear();
+            out.tag("chroms_gt_256");
+        }
+        begin(if ctx.case == 2 { J::obj().set("opts", case.opts.to_json()).set("input", J::s("300 chromosomes")) } else { bw_desc(&case) });
         out.hash = case.hash.clone();
         out.nontrivial = case.nontrivial;
         let sink = MemSink::new();
@@ -684,8 +733,15 @@ pub fn c09emit(ctx: &Ctx, begin: &mut dyn FnMut(J)) -> Outcome {
         let _ = std::fs::write(base.with_extension("json"), side.to_string());
     } else {
         let small = r.chance(1, 2);
-        let case = gen_bb_case(&mut r, &BbGenCfg { allow_zero_len: true, no_zero_zero: true, small_slots: small, max_chroms: 6, ncols: None });
-        begin(bb_desc(&case));
+        let mut case = gen_bb_case(&mut r, &BbGenCfg { allow_zero_len: true, no_zero_zero: true, small_slots: small, max_chroms: 6, ncols: None });
+        if ctx.case == 3 {
+            case.input = many_chroms_bb(300);
+            case.opts.source = Source::Serial;
+            case.opts.sort_all = true;
+            case.extra.clear();
+            out.tag("chroms_gt_256");
+        }
+        begin(if ctx.case == 3 { J::obj().set("opts", case.opts.to_json()).set("input", J::s("300 chromosomes")) } else { bb_desc(&case) });
         out.hash = case.hash.clone();
         out.nontrivial = case.nontrivial;
         let sink = MemSink::new();
